@@ -394,8 +394,13 @@ func gen(r *lib.RNG) caseT {
 			}
 			o = Op{Kind: "add", Col: &c}
 			def := ""
-			if r.Bool() {
+			// (an ENUM NOT NULL column added without DEFAULT is filled with the invalid index 0, read back as '': outside
+			// the property - the filled value of a NEW column - and outside the model, so such columns always get a DEFAULT)
+			if r.Bool() || (c.Kind == "enum" && !c.Null) {
 				v := genVal(r, c)
+				for v == nil && c.Kind == "enum" && !c.Null {
+					v = genVal(r, c)
+				}
 				if v != nil {
 					o.Fill, o.HasDf = v, true
 					def = " DEFAULT " + sqlVal(c, v)
@@ -647,6 +652,7 @@ func run(c *lib.Ctx, cs caseT) {
 	type fail struct{ sig, what string }
 	var fails []fail
 	modelOK := true
+	enumDefect := false
 	for _, o := range cs.Ops {
 		var err error
 		for _, q := range o.SQL {
@@ -672,8 +678,17 @@ func run(c *lib.Ctx, cs caseT) {
 		// ----- the property on the implementation alone -----
 		if err != nil {
 			if after.dump() != cur.dump() {
-				fails = append(fails, fail{o.Kind + "/failed-statement-changed-table",
+				sig := o.Kind + "/failed-statement-changed-table"
+				if i := findCol(cur.cols, o.Name); (o.Kind == "modify" || o.Kind == "modifyx") && i >= 0 && cur.cols[i].Kind == "enum" && o.Col.Kind == "enum" {
+					sig = "modify-enum/failed-redefinition-remapped-earlier-rows" // rows before the offending one were re-indexed in place
+				}
+				fails = append(fails, fail{sig,
 					fmt.Sprintf("%q failed (%v) but the table changed: before %s, after %s", o.SQL, err, cur.dump(), after.dump())})
+				if strings.HasPrefix(sig, "modify-enum/") {
+					// the model does not mirror this known defect (in-place re-indexing by a failing rewrite): the model
+					// comparison of this case ends before the step; the predicate reports it
+					enumDefect = true
+				}
 			}
 		} else {
 			if len(after.rows) != len(cur.rows) {
@@ -748,7 +763,7 @@ func run(c *lib.Ctx, cs caseT) {
 				}
 			}
 		}
-		if o.Kind == "uniq" || o.Kind == "modifyx" {
+		if o.Kind == "uniq" || o.Kind == "modifyx" || enumDefect {
 			break
 		}
 		if !(o.Kind == "index" && err != nil) { // OIndex carries no column: a rejected index statement is not a model step
@@ -810,6 +825,40 @@ func main() {
 					{Kind: "modify", Name: 4, Col: &ColT{ID: 4, Kind: "bigint", Null: false}, SQL: []string{"ALTER TABLE t2 MODIFY COLUMN c4 bigint NOT NULL"}},
 				}},
 		}
+		corpus = append(corpus,
+			// known finding: a failing ENUM redefinition re-indexes the rows visited before the failure
+			caseT{Cols: []ColT{{ID: 0, Kind: "int"}, {ID: 2, Kind: "enum", Vals: []string{"Z", "m"}, Null: true}},
+				Rows: [][]*string{{sp("1"), sp("m")}, {sp("2"), sp("Z")}, {sp("3"), nil}, {sp("4"), sp("m")}},
+				Ops: []Op{{Kind: "modify", Name: 2, Col: &ColT{ID: 2, Kind: "enum", Vals: []string{"m"}, Null: false}, Pos: "first",
+					SQL: []string{"ALTER TABLE t1 MODIFY COLUMN c2 enum('m') NOT NULL FIRST"}}}},
+			// ENUM redefinitions that keep all members: reorder, insert before / among
+			caseT{Cols: []ColT{{ID: 0, Kind: "int"}, {ID: 1, Kind: "enum", Vals: []string{"a", "b", "c"}, Null: true}},
+				Rows: [][]*string{{sp("1"), sp("a")}, {sp("2"), sp("c")}, {sp("3"), nil}, {sp("4"), sp("b")}},
+				Ops: []Op{
+					{Kind: "modify", Name: 1, Col: &ColT{ID: 1, Kind: "enum", Vals: []string{"c", "a", "b"}, Null: true}, SQL: []string{"ALTER TABLE t1 MODIFY COLUMN c1 enum('c','a','b')"}},
+					{Kind: "modify", Name: 1, Col: &ColT{ID: 1, Kind: "enum", Vals: []string{"x", "c", "m", "a", "b"}, Null: true}, SQL: []string{"ALTER TABLE t1 MODIFY COLUMN c1 enum('x','c','m','a','b')"}},
+					{Kind: "modify", Name: 1, Col: &ColT{ID: 1, Kind: "enum", Vals: []string{"x", "c", "m", "a", "b", "q1"}, Null: true}, SQL: []string{"ALTER TABLE t1 MODIFY COLUMN c1 enum('x','c','m','a','b','q1')"}},
+				}},
+			// narrowing with out-of-range stored values on the rewrite path (NULL -> NOT NULL, FIRST / AFTER): must fail without effect
+			caseT{Cols: []ColT{{ID: 0, Kind: "int"}, {ID: 1, Kind: "smallint", Null: true}, {ID: 2, Kind: "int", Null: true}},
+				Rows: [][]*string{{sp("1"), sp("300"), sp("-200")}, {sp("2"), sp("5"), sp("70000")}},
+				Ops: []Op{
+					{Kind: "modify", Name: 1, Col: &ColT{ID: 1, Kind: "tinyint", Null: false}, SQL: []string{"ALTER TABLE t1 MODIFY COLUMN c1 tinyint NOT NULL"}},
+					{Kind: "modify", Name: 1, Col: &ColT{ID: 1, Kind: "tinyint", Null: true}, Pos: "first", SQL: []string{"ALTER TABLE t1 MODIFY COLUMN c1 tinyint FIRST"}},
+					{Kind: "modify", Name: 2, Col: &ColT{ID: 2, Kind: "smallint unsigned", Null: false}, SQL: []string{"ALTER TABLE t1 MODIFY COLUMN c2 smallint unsigned NOT NULL"}},
+					{Kind: "modify", Name: 2, Col: &ColT{ID: 2, Kind: "smallint unsigned", Null: true}, Pos: "after", After: 0, SQL: []string{"ALTER TABLE t1 MODIFY COLUMN c2 smallint unsigned AFTER id"}},
+					{Kind: "modify", Name: 2, Col: &ColT{ID: 2, Kind: "bigint", Null: false}, Pos: "first", SQL: []string{"ALTER TABLE t1 MODIFY COLUMN c2 bigint NOT NULL FIRST"}},
+				}},
+			// nullable -> NOT NULL over rows holding NULL must fail (no silent zero fill)
+			caseT{Cols: []ColT{{ID: 0, Kind: "int"}, {ID: 1, Kind: "int", Null: true}, {ID: 2, Kind: "varchar", N: 5, Null: true}},
+				Rows: [][]*string{{sp("1"), nil, sp("x")}, {sp("2"), sp("4"), nil}},
+				Ops: []Op{
+					{Kind: "modify", Name: 1, Col: &ColT{ID: 1, Kind: "int", Null: false}, SQL: []string{"ALTER TABLE t1 MODIFY COLUMN c1 int NOT NULL"}},
+					{Kind: "modify", Name: 2, Col: &ColT{ID: 2, Kind: "varchar", N: 5, Null: false}, SQL: []string{"ALTER TABLE t1 MODIFY COLUMN c2 varchar(5) NOT NULL"}},
+					{Kind: "add", Col: &ColT{ID: 3, Kind: "int", Null: false}, Fill: sp("0"), SQL: []string{"ALTER TABLE t1 ADD COLUMN c3 int NOT NULL"}},
+					{Kind: "add", Col: &ColT{ID: 4, Kind: "varchar", N: 3, Null: false}, Fill: sp(""), Pos: "first", SQL: []string{"ALTER TABLE t1 ADD COLUMN c4 varchar(3) NOT NULL FIRST"}},
+				}},
+		)
 		for _, cs := range corpus {
 			run(c, cs)
 		}
